@@ -1,10 +1,147 @@
+import BoboVerif.Model.Frame
 import BoboVerif.Drivers.Util
-/- driver stub for the Frame model (to be replaced by the real line protocol). -/
+/-
+driver for M-Frame (`bobodrv frame`).  Ops (one per line):
+
+  reset                                                  forget everything
+  cfg <minLen> <markerhex> <timeout> <recvBytes> <queueCap>
+  peer <urn> <key> <addr> <lastComms> <lastAttempt> <0|1 flagReset> <stashLen>   append a peer
+  seal <byteshex> <plaintext-utf8-hex>                   ideal AEAD: exactly the sealed byte strings open
+  json <json-utf8-hex> <ok|dist|value|system|other>      verdict of _incoming_from_json on that text
+  conn <new|old> <accepted> <addr> <clock,csv> <script>  one call of _tcp_incoming_handle_client;
+                                                         script = comma separated  c<hex> | e | s   (or `-`)
+  accepttimeout                                          accept() raised socket.timeout
+  split <plaintext-utf8-hex>                             _split_plaintext alone
+
+`conn` answers  `<outcome> reads=<k> caught=<0|1> peers=<urn:addr:lastComms:lastAttempt:flag:stashLen;…> queue=<n>`.
+Unknown / malformed input answers `bad-op`.
+-/
 namespace Bobo.Drv.Frame
+open Bobo.Frame
 
 structure DS where
-  dummy : Unit := ()
+  cfg    : Cfg := { minLen := 52, marker := [66, 79, 66, 79], timeout := 3, recvBytes := 2048, queueCap := 0 }
+  st     : St := ⟨[], []⟩
+  sealed : List (Bytes × String) := []
+  jsons  : List (String × Option Exc) := []
 
-def step (d : DS) (_line : String) : DS × String := (d, "unimplemented")
+def hexVal (c : Char) : Option Nat :=
+  if '0' ≤ c ∧ c ≤ '9' then some (c.toNat - '0'.toNat)
+  else if 'a' ≤ c ∧ c ≤ 'f' then some (c.toNat - 'a'.toNat + 10)
+  else none
+
+def hexBytes : List Char → Option Bytes
+  | [] => some []
+  | [_] => none
+  | a :: b :: r =>
+    match hexVal a, hexVal b, hexBytes r with
+    | some x, some y, some t => some ((x * 16 + y) :: t)
+    | _, _, _ => none
+
+/-- `-` is the empty byte string. -/
+def parseHex (s : String) : Option Bytes := if s = "-" then some [] else hexBytes s.toList
+
+def parseText (s : String) : Option String :=
+  match parseHex s with
+  | none => none
+  | some bs => String.fromUTF8? (ByteArray.mk (bs.map (fun n => n.toUInt8)).toArray)
+
+def hexDigit (n : Nat) : Char := if n < 10 then Char.ofNat (48 + n) else Char.ofNat (87 + n)
+def textHex (s : String) : String :=
+  if s.isEmpty then "-"
+  else String.ofList (s.toUTF8.toList.flatMap (fun b => [hexDigit (b.toNat / 16), hexDigit (b.toNat % 16)]))
+
+def parseCsvInts (s : String) : Option (List Int) :=
+  if s = "-" then some [] else (s.splitOn ",").mapM (fun w => w.toInt?)
+
+def parseScriptTok (w : String) : Option RecvResult :=
+  if w = "e" then some .eof
+  else if w = "s" then some .silent
+  else match w.toList with
+    | 'c' :: r => (hexBytes r).map .chunk
+    | _ => none
+
+def parseScript (s : String) : Option (List RecvResult) :=
+  if s = "-" then some [] else (s.splitOn ",").mapM parseScriptTok
+
+def lookup {α β : Type} [DecidableEq α] (k : α) : List (α × β) → Option β
+  | [] => none
+  | (a, b) :: r => if a = k then some b else lookup k r
+
+def parseVerdict : String → Option (Option Exc)
+  | "ok" => some none
+  | "dist" => some (some .distErr)
+  | "value" => some (some .valueErr)
+  | "system" => some (some .systemErr)
+  | "other" => some (some .otherExc)
+  | _ => none
+
+/-- the verdict tables as `Ops`; a JSON text nobody registered answers the sentinel `baseExc`. -/
+def DS.ops (d : DS) : Ops where
+  decrypt := fun bs => lookup bs d.sealed
+  parse := fun j => match lookup j d.jsons with
+    | some v => v
+    | none => some .baseExc
+
+def peerStr (p : Peer) : String :=
+  s!"{p.urn}:{p.addr}:{p.lastComms}:{p.lastAttempt}:{boolStr p.flagReset}:{p.stash.length}"
+
+def stStr (st : St) : String :=
+  s!"peers={";".intercalate (st.peers.map peerStr)} queue={st.queue.length}"
+
+def outStr : Outcome → String
+  | .accepted => "accepted"
+  | .rejected e => "rejected-" ++ e.name
+  | .blocked => "blocked"
+  | .clockOut => "clockout"
+
+def outCaught : Outcome → Bool
+  | .accepted => true
+  | .rejected e => caught handlers e
+  | _ => false
+
+def step (d : DS) (line : String) : DS × String :=
+  match words line with
+  | ["reset"] => ({}, "ok")
+  | ["cfg", ml, mk, to, rb, qc] =>
+    match ml.toNat?, parseHex mk, to.toInt?, rb.toNat?, qc.toNat? with
+    | some ml, some mk, some to, some rb, some qc =>
+      ({ d with cfg := { minLen := ml, marker := mk, timeout := to, recvBytes := rb, queueCap := qc } }, "ok")
+    | _, _, _, _, _ => (d, "bad-op")
+  | ["peer", urn, key, addr, lc, la, fr, sl] =>
+    match lc.toInt?, la.toInt?, sl.toNat? with
+    | some lc, some la, some sl =>
+      if fr ≠ "0" ∧ fr ≠ "1" then (d, "bad-op")
+      else
+        let p : Peer := ⟨urn, key, addr, lc, la, fr = "1", List.range sl⟩
+        ({ d with st := { d.st with peers := d.st.peers ++ [p] } }, "ok")
+    | _, _, _ => (d, "bad-op")
+  | ["seal", bs, pt] =>
+    match parseHex bs, parseText pt with
+    | some bs, some pt => ({ d with sealed := (bs, pt) :: d.sealed }, "ok")
+    | _, _ => (d, "bad-op")
+  | ["json", j, v] =>
+    match parseText j, parseVerdict v with
+    | some j, some v => ({ d with jsons := (j, v) :: d.jsons }, "ok")
+    | _, _ => (d, "bad-op")
+  | ["conn", which, acc, addr, clock, script] =>
+    match acc.toInt?, parseCsvInts clock, parseScript script with
+    | some acc, some clock, some script =>
+      if which ≠ "new" ∧ which ≠ "old" then (d, "bad-op")
+      else
+        let c : Conn := ⟨acc, clock, script, addr⟩
+        let r := if which = "new" then handle d.ops d.cfg c d.st else handleOld d.ops d.cfg c d.st
+        if r.out = .rejected .baseExc then (d, "bad-op")
+        else ({ d with st := r.st }, s!"{outStr r.out} reads={r.reads} caught={boolStr (outCaught r.out)} {stStr r.st}")
+    | _, _, _ => (d, "bad-op")
+  | ["accepttimeout"] => (d, s!"rejected-socktimeout reads=0 caught={boolStr (caught handlers .sockTimeout)} {stStr d.st}")
+  | ["split", pt] =>
+    match parseText pt with
+    | none => (d, "bad-op")
+    | some pt =>
+      match splitPlain pt with
+      | .error e => (d, "err " ++ e.name)
+      | .ok f => (d, s!"ok urn={textHex f.urn} key={textHex f.key} type={f.type} flags={f.flags} json={textHex f.json}")
+  | _ => (d, "bad-op")
 
 end Bobo.Drv.Frame
